@@ -27,9 +27,17 @@ use std::process::Command;
 /// canonical text of a path string as the model prints it: components joined by `/`,
 /// empty and `.` components dropped, leading `/` kept.
 fn canon(s: &str) -> String {
-    let comps: Vec<&str> = s.split('/').filter(|c| !c.is_empty() && *c != ".").collect();
+    let all: Vec<&str> = s.split('/').filter(|c| !c.is_empty()).collect();
+    let comps: Vec<&str> = all.iter().copied().filter(|c| *c != ".").collect();
     let body = comps.join("/");
-    if s.starts_with('/') { format!("/{body}") } else { body }
+    if s.starts_with('/') {
+        format!("/{body}")
+    } else if all.first() == Some(&".") {
+        // a relative path keeps its leading CurDir component
+        if body.is_empty() { ".".to_string() } else { format!("./{body}") }
+    } else {
+        body
+    }
 }
 
 /// independent lexical normaliser (components, `..` pops, root stays)
@@ -288,6 +296,10 @@ fn fs_json(l: &Layout) -> Value {
 fn gen_path(rng: &mut Rng, l: &Layout, base: Option<&str>) -> (String, String) {
     let d = l.dirs[rng.below(l.dirs.len() as u64) as usize].clone();
     let leaf = rng.pick(&["f.txt", "f.txt", "clean.txt", "new.txt", "missing.txt", "nodir/deep/x.txt", ""]);
+    if rng.chance(1, 60) {
+        // longer than any platform limit: refused before the upward walk
+        return (format!("{d}{}", "/x".repeat(17000 + rng.below(4000) as usize)), "abs:too-long".to_string());
+    }
     let (mut p, mut tag) = match rng.below(12) {
         0 => (format!("{}/outside{}/x.txt", Path::new(&l.top).parent().unwrap().display(), rng.below(2)), "outside-everything".to_string()),
         1 => ("/definitely/not/here.txt".to_string(), "outside-everything".to_string()),
@@ -449,6 +461,9 @@ fn find_case(rng: &mut Rng, l: &Layout, fsj: &Value, em: &mut Emitter, forced: O
         oracles.push(oracle("not_string_prefix", !string_only, json!({"path": path, "root": w}), "routed-by-string-prefix"));
         let is_root = l.roots.iter().any(|(x, k)| *k == Kind::Normal && canon(x) == w);
         oracles.push(oracle("answer_is_work_tree_root", is_root, json!({"path": path, "root": w}), "routed-to-non-root"));
+    }
+    if path.len() > 32 * 1024 {
+        oracles.push(oracle("over_long_path_is_orphan", repo.is_none(), json!({"path_len": path.len()}), "over-long-path-routed"));
     }
     if let Some(exp) = expected_innermost(l, &path, boundary.as_deref()) {
         let got = imp.get("root").and_then(|v| v.as_str()).map(|s| s.to_string());
@@ -836,7 +851,7 @@ fn gen_av1(rng: &mut Rng) -> (T, String) {
         match rng.below(6) {
             0 => T::Null,
             1 => T::A(vec![]),
-            _ => T::A((0..1 + rng.below(3)).map(|_| s(rng.pick(&["src/a.rs", "/abs/b.txt", "../c", "d//e/./f", "x/../y", ""]))).collect()),
+            _ => T::A((0..1 + rng.below(3)).map(|_| s(rng.pick(&["src/a.rs", "/abs/b.txt", "../c", "d//e/./f", "x/../y", "", "./g", ".", "/"]))).collect()),
         }
     };
     let dirty = |rng: &mut Rng| -> T {
